@@ -130,6 +130,9 @@ class ModuleInfo:
             self.tree = ast.parse(self.source, filename=path)
         except SyntaxError as e:
             raise AnalysisError("cannot parse %s: %s" % (rel, e))
+        # locals are brought back to their canonical names by role (sa/localroles.py): no rule depends on what a local is called
+        from .localroles import canonicalise
+        self.locals_renamed = canonicalise(self.tree, rel)
         self.lines = self.source.splitlines()
         self.functions: Dict[str, FuncInfo] = {}
         self.classes: Dict[str, ClassInfo] = {}
